@@ -7,12 +7,15 @@
    - per round admissibility for naive/starter/overbook; for priority see C12_admissible, for priority-pool
      C16_no_internal_assertion;
    - the statistics epilogue is total.
+   - naive with multi-operator containers (a whole pipeline per container) and overbook with memory
+     overcommit: the closed loop never raises (full theorems, Proofs/ClosedLoopFacts.v); hence naive and the
+     starter template run to the end in every container mode;
    The closed-loop claim for priority and priority-pool is decided by the correspondence of whole runs
    (the implementation must return normally exactly when the model does) and the monitor. *)
 From Coq Require Import List ZArith QArith.
 Import ListNotations.
 From Eudoxia Require Import Model.Types Model.Dag Model.Lifecycle Model.Container Model.Pool Model.Executor
-  Model.Sched Model.Simulator Proofs.ExecLifeFacts Proofs.SafetyFacts.
+  Model.Sched Model.Simulator Proofs.ExecLifeFacts Proofs.SafetyFacts Proofs.ClosedLoopFacts.
 Close Scope Q_scope.
 Close Scope Z_scope.
 
@@ -91,6 +94,80 @@ Theorem C08_percentile_bounds : forall l lo hi,
   exists q, percentile99 l = Some q /\ (inject_Z lo <= q <= inject_Z hi)%Q.
 Proof. exact percentile99_bounds. Qed.
 Print Assumptions C08_percentile_bounds.
+
+(* naive with multi-operator containers: a container receives all operators of an untouched pipeline in
+   the order of operator_states (topological), starts each one only after the previous one completed, and
+   a failed pipeline is never assigned again: every workload of well-formed DAG pipelines with fresh ids,
+   every pool count and size, every tick rate, every non-empty timing script: the run reaches its last
+   tick. This removes the "partial" of C08_naive_run_errors_partial *)
+Theorem C08_naive_multi_runs_to_end : forall C l np cpu ram arrivals,
+  cf_static C = mk_static l -> dags_wf l ->
+  (forall op c, cf_script C op c <> []) ->
+  cf_multi C = true ->
+  NoDup (concat arrivals) ->
+  exists sf logs,
+    sim_run C ANaive 0%Z (init_sim C np cpu ram) arrivals = (sf, logs, None) /\
+    length logs = length arrivals.
+Proof. exact naive_multi_runs_to_end_mk_static. Qed.
+Print Assumptions C08_naive_multi_runs_to_end.
+
+(* naive and the starter template in every container mode *)
+Theorem C08_naive_runs_to_end : forall C l (starter : bool) np cpu ram arrivals,
+  cf_static C = mk_static l -> dags_wf l ->
+  (forall op c, cf_script C op c <> []) ->
+  NoDup (concat arrivals) ->
+  exists sf logs,
+    sim_run C (if starter then AStarter else ANaive) 0%Z (init_sim C np cpu ram) arrivals
+    = (sf, logs, None) /\ length logs = length arrivals.
+Proof. exact naive_any_mode_runs_to_end_mk_static. Qed.
+Print Assumptions C08_naive_runs_to_end.
+
+(* overbook with memory overcommit and pools with positive RAM: every queued operator stays assignable
+   with completed parents until it is taken, so neither the scheduler's assertion nor `only(r.ops)` nor any
+   executor check or container tick raises: the run reaches its last tick. This removes the "partial" of
+   C08_overbook_run_errors_partial (without overcommit the first tick oversells RAM, see
+   SafetyFacts.Examples.overbook_without_overcommit_refuted) *)
+Theorem C08_overbook_runs_to_end : forall C l np cpu ram arrivals,
+  cf_static C = mk_static l -> dags_wf l ->
+  (forall op c, cf_script C op c <> []) ->
+  cf_overcommit C = true -> Qleb ram 0%Q = false ->
+  NoDup (concat arrivals) ->
+  exists sf logs,
+    sim_run C AOverbook 0%Z (init_sim C np cpu ram) arrivals = (sf, logs, None) /\
+    length logs = length arrivals.
+Proof. exact overbook_runs_to_end_mk_static. Qed.
+Print Assumptions C08_overbook_runs_to_end.
+
+(* the executor half, for any scheduler: from a state in which every active container's remaining
+   operators are distinct, ASSIGNED (the first one possibly RUNNING) and dependency-closed in order, a
+   batch of checked assignments of ASSIGNED, dependency-closed operator lists is executed without raising,
+   the invariant is re-established, and operator states only move to RUNNING/COMPLETED/FAILED *)
+Theorem C08_exec_round_total : forall C, (forall op cpu, cf_script C op cpu <> []) ->
+  forall (Qo : list nat -> Prop) np e w' asgs,
+  mloop_inv C Qo np e ->
+  wlen (cf_static C) w' -> mono_w (e_world e) w' -> mk_assignments C (e_world e) asgs = Ok w' ->
+  Forall (masg_ready C w') asgs -> Forall (fun a => Qo (a_ops a)) asgs ->
+  (forall x, assignable (st_of (e_world e) x) = false -> st_of w' x = st_of (e_world e) x) ->
+  checks_pass C (e_pools e) asgs ->
+  exists e2 res,
+    exec_tick C {| e_world := w'; e_pools := e_pools e; e_next := e_next e |} [] asgs = Ok (e2, res) /\
+    mloop_inv C Qo np e2 /\ xsteps C w' (e_world e2) /\ Forall (fun r => Qo (r_ops r)) res.
+Proof. exact exec_round_ok. Qed.
+Print Assumptions C08_exec_round_total.
+
+(* non-vacuity of the two closed-loop theorems: a three-operator pipeline with a join completes inside one
+   container under naive (and a second container is OOM-killed and not retried); under overbook on a single
+   CPU operators queue up and a failing operator is retried three times; both runs end with None *)
+Example C08_witness_multi :
+  (let '(sf, logs, er) := sim_run ClosedLoopExamples.exC ANaive 0%Z
+                            (init_sim ClosedLoopExamples.exC 2 4%Z 8%Q) ClosedLoopExamples.ex_arrivals in
+   er = None /\
+   map r_ops (filter ClosedLoopExamples.good_multi (flat_map tl_results logs)) = [[0; 1; 2]] /\
+   map r_ops (filter r_err (flat_map tl_results logs)) = [[3; 4]]) /\
+  (let '(sf, logs, er) := sim_run ClosedLoopExamples.exC AOverbook 0%Z
+                            (init_sim ClosedLoopExamples.exC 1 1%Z 8%Q) ClosedLoopExamples.ex_arrivals_ob in
+   er = None /\ map r_ops (filter r_err (flat_map tl_results logs)) = [[3]; [3]; [3]]).
+Proof. split; vm_compute; repeat split. Qed.
 
 Example C08_witness : percentile99 [] = None /\ meanZ [] = None.
 Proof. split; reflexivity. Qed.
